@@ -446,6 +446,9 @@ func (c *Ctx) WriteEvidence() {
 	for k, v := range c.Extra {
 		cov[k] = v
 	}
+	if c.Assumptions == nil {
+		c.Assumptions = []string{}
+	}
 	ev := map[string]interface{}{
 		"property_id": c.ID,
 		"tier":        c.Tier,
